@@ -158,31 +158,24 @@ func checkVerifyFrom(c *core.Ctx, fn, vmp, cpr *ssa.Function, quorum bool) {
 			}
 			return false
 		}
-		eng.Dominates(c, "C23.confirmed", fn, cmpGuard("best >= height", func(b *ssa.BinOp) (bool, bool) {
-			if b.Op == token.LSS && isBest(b.X) && isHeight(b.Y) {
-				return true, false
-			}
-			return false, false
-		}), sinks, "accepting return", nil)
-		eng.Dominates(c, "C23.confirmed", fn, cmpGuard("best - height >= BlocksToWait - 1", func(b *ssa.BinOp) (bool, bool) {
-			if b.Op != token.LSS {
-				return false, false
-			}
-			sub, ok := b.X.(*ssa.BinOp)
-			if !ok || sub.Op != token.SUB || !isBest(sub.X) || !isHeight(sub.Y) {
-				return false, false
-			}
-			cv, ok := ir.Resolve(b.Y).(*ssa.Convert)
+		eng.Dominates(c, "C23.confirmed", fn, relGuard("best >= height", isBest, isHeight, token.GEQ), sinks, "accepting return", nil)
+		isDiff := func(v ssa.Value) bool {
+			sub, ok := ir.Resolve(v).(*ssa.BinOp)
+			return ok && sub.Op == token.SUB && isBest(sub.X) && isHeight(sub.Y)
+		}
+		isWait := func(v ssa.Value) bool {
+			cv, ok := ir.Resolve(v).(*ssa.Convert)
 			if !ok {
-				return false, false
+				return false
 			}
 			w, ok := ir.Resolve(cv.X).(*ssa.BinOp)
 			if !ok || w.Op != token.SUB || !isFieldNamed(w.X, "BlocksToWait") {
-				return false, false
+				return false
 			}
 			k, okk := ir.ConstInt(w.Y)
-			return okk && k == 1, false
-		}), sinks, "accepting return", nil)
+			return okk && k == 1
+		}
+		eng.Dominates(c, "C23.confirmed", fn, relGuard("best - height >= BlocksToWait - 1", isDiff, isWait, token.GEQ), sinks, "accepting return", nil)
 	}
 	// header lookup for that height
 	var hdrCall *ssa.Call
@@ -350,14 +343,29 @@ func checkCheckProofResult(c *core.Ctx, fn *ssa.Function) {
 		return isHash(a[0]) || isHash(a[1])
 	}, true)}
 	eng.Dominates(c, "C23.value-hash", fn, g, ir.BoolReturnSinks(fn, 0, true), "return true", nil)
-	// the padding loop pads to exactly 32 bytes
+	// the padding pads to exactly 32 bytes: the width 32 bounds the pad loop (counted up to 32, or
+	// counted down from 32 − len), in the function or in a same-package helper it calls
 	ok32 := false
-	for _, cd := range ir.Conds(fn) {
-		if b, ok := cd.V.(*ssa.BinOp); ok && b.Op == token.LSS {
-			if k, okk := ir.ConstInt(b.Y); okk && k == 32 {
-				ok32 = true
+	hosts, releaseHosts := hostsWithHelpers(fn)
+	for _, host := range hosts {
+		for _, bb := range host.Blocks {
+			for _, in := range bb.Instrs {
+				b, ok := in.(*ssa.BinOp)
+				if !ok {
+					continue
+				}
+				switch b.Op {
+				case token.LSS, token.LEQ, token.GTR, token.GEQ, token.SUB:
+					if k, okk := ir.ConstInt(b.Y); okk && k == 32 {
+						ok32 = true
+					}
+					if k, okk := ir.ConstInt(b.X); okk && k == 32 {
+						ok32 = true
+					}
+				}
 			}
 		}
 	}
+	releaseHosts()
 	c.Decide(ok32, "C23.value-hash", fn, "the proven value is left-padded to 32 bytes before the comparison", c.P.Rel(fn.Pos()), "")
 }
